@@ -995,6 +995,10 @@ var c14FixedRegexes = []string{
 	"ab", "ba", "aa", "a.", ".a", "a.b", "é日", "日😀", "a\u0301", "a\n", "\nb", `a\nb`, "é.", ".é", "..b", "a.*b", "a.*?b", "é.*é", "😀.?",
 	// case folding
 	"A", "É", "(?i)a", "(?i)é", "k", "s+", "(?i:k)", "(?i)[a-z]+",
+	// whole-subject anchoring of literals and near-literals (the shapes regexp reports as a complete literal prefix)
+	"^a$", "^ab$", "^aa$", "^é$", "^日日$", "^😀$", `\Aa\z`, `\Aab\z`, `^a\z`, `\Aa$`, `^
+$`, `^a
+b$`, "^(a)$", "^(?:a)$", "^a*$", "^[ab]$", "^.a$", "^a.$", `^a\.b$`, `^\.$`, "(?m)^a$", "(?m)^b$", "^a$|^b$", "^(?<n>a)$", "^á$", "^–a–$", "^aab$", "^b😀b$",
 }
 
 // c14RandRegex draws from the grammar: atoms (literals, classes, ., anchors),
@@ -1107,6 +1111,14 @@ func c14Regexes(r *rand.Rand, nRand int) []string {
 	for tries := 0; len(out) < len(c14FixedRegexes)+nRand && tries < 20*nRand; tries++ {
 		g := &c14ReGen{r: r}
 		re, _ := g.gen(1 + r.IntN(3))
+		switch r.IntN(12) {
+		case 0:
+			re = "^" + re + "$"
+		case 1:
+			re = `\A` + re + `\z`
+		case 2:
+			re = "^(?:" + re + ")$"
+		}
 		if len(re) > 60 || seen[re] || !ok(re) {
 			continue
 		}
